@@ -353,6 +353,9 @@ vbi_bit_slicer_init(vbi_bit_slicer *slicer,
 	unsigned int c_mask = (cri_bits > 0) ? ~0U >> (32 - cri_bits) : 0;
 	unsigned int f_mask = (frc_bits > 0) ? ~0U >> (32 - frc_bits) : 0;
 	int gsh = 0;
+	double step;
+	double phase_shift;
+	double limit;
 
 	slicer->func = bit_slicer_1;
 
@@ -453,7 +456,7 @@ vbi_bit_slicer_init(vbi_bit_slicer *slicer,
 	slicer->frc			= cri_frc & f_mask;
 	slicer->frc_bits		= frc_bits;
 	/* Payload bit distance in 1/65536 raw samples. */
-	slicer->step			= (int)(sampling_rate * 65536.0 / bit_rate);
+	step = sampling_rate * 65536.0 / bit_rate;
 
 	if (payload & 7) {
 		slicer->payload	= payload;
@@ -467,20 +470,38 @@ vbi_bit_slicer_init(vbi_bit_slicer *slicer,
 	case VBI_MODULATION_NRZ_MSB:
 		slicer->endian--;
 	case VBI_MODULATION_NRZ_LSB:
-		slicer->phase_shift = (int)
-			(sampling_rate * 65536.0 / cri_rate * .5
-			 + sampling_rate * 65536.0 / bit_rate * .5 + 32768);
+		phase_shift = sampling_rate * 65536.0 / cri_rate * .5
+			+ sampling_rate * 65536.0 / bit_rate * .5 + 32768;
 		break;
 
 	case VBI_MODULATION_BIPHASE_MSB:
 		slicer->endian--;
 	case VBI_MODULATION_BIPHASE_LSB:
 		/* Phase shift between the NRZ modulated CRI and the rest */
-		slicer->phase_shift = (int)
-			(sampling_rate * 65536.0 / cri_rate * .5
-			 + sampling_rate * 65536.0 / bit_rate * .25 + 32768);
+		phase_shift = sampling_rate * 65536.0 / cri_rate * .5
+			+ sampling_rate * 65536.0 / bit_rate * .25 + 32768;
+		break;
+
+	default:
+		phase_shift = 0;
 		break;
 	}
+
+	/* When half a CRI bit or one payload bit is longer than the line
+	   nothing can be decoded, and the 16.16 fixed point numbers below
+	   may overflow. We cannot return an error, so the slicer will just
+	   never find a CRI. */
+	limit = MIN (raw_samples * 65536.0, 2147483647.0);
+
+	if (!(step < limit && phase_shift < limit)) {
+		slicer->step = 0;
+		slicer->phase_shift = 0;
+		slicer->cri_bytes = 0;
+		return;
+	}
+
+	slicer->step = (int) step;
+	slicer->phase_shift = (int) phase_shift;
 
 	/* The payload loop has no data end check. When the CRI is found
 	   at sample n it reads up to sample n + reach: the position of
